@@ -25,7 +25,7 @@ ASSUMPTIONS = [
     "a message is expired at t >= accept + lifetime (the property text: 'never at or after its lifetime has elapsed')",
     "all instants are dyadic rationals, so 'exactly at expiry' is an exact float comparison",
 ]
-PROBES = ["c16.add_at_connect_notification", "c16.expired_during_slow_flush", "c16.overflow", "c16.expiry_made_room", "c16.send_at_exact_expiry", "c16.not_open", "c16.expired_never_sent", "c16.connect_at_exact_expiry"]
+PROBES = ["c16.down_by_write_fault", "c16.add_at_connect_notification", "c16.expired_during_slow_flush", "c16.overflow", "c16.expiry_made_room", "c16.send_at_exact_expiry", "c16.not_open", "c16.expired_never_sent", "c16.connect_at_exact_expiry"]
 LIFETIMES = [0.25, 0.5, 1.0, 2.0, 5.0, 30.0]
 
 
@@ -33,7 +33,76 @@ def budget(tier: str) -> int:
     return 12000 if tier == "quick" else 1_000_000
 
 
+def gen_after_fault(rng) -> dict:
+    """The link goes down through a write fault (not from the start): the message whose write failed is either re-queued (it
+    then holds one of the ten places) or dropped (it holds none); the bound for what follows is still ten."""
+    gen = rng.choice([4, 5])
+    msgs = sendq.distinct_messages(rng, gen, 16)
+    retries = rng.choice([0, 0, 2])
+    k = rng.choice([2, 3, 5])
+    how = rng.choice(["write", "stall_rst"])
+    tl = [{"at": 0.0, "op": "user.open"}]
+    if how == "write":
+        tl.append({"at": 1.0 - G.EPS, "op": "net.fail_write", "nth": rng.choice([1, 2, 3]), "err": rng.choice(["EPIPE", "ECONNRESET"])})
+        tl.append({"at": 1.0, "op": "user.send", "msg": msgs[0], "policy": {"retries": retries, "lifetime": 30.0}, "victim": True})
+        t_f = 1.0
+    else:
+        tl.append({"at": 1.0 - G.TICK, "op": "net.stall", "on": True})
+        tl.append({"at": 1.0, "op": "user.send", "msg": msgs[0], "policy": {"retries": retries, "lifetime": 30.0}, "victim": True})
+        tl.append({"at": 1.125, "op": "net.rst"})
+        t_f = 1.125
+    knobs = {"latency": G.TICK, "first_packet_id": rng.choice([0, 250]),
+             "fates": [{"kind": "accept", "latency": 0.0}] + [{"kind": "refuse", "latency": 0.0}] * k + [{"kind": "accept", "latency": 0.0}]}
+    n = rng.choice([9, 10, 11, 13])
+    t = t_f + 0.25
+    for d in msgs[1: 1 + n]:
+        tl.append({"at": t, "op": "user.send", "msg": d, "policy": {"retries": rng.choice([0, 2]), "lifetime": 30.0}})
+        t += rng.choice([G.TICK, 0.0625, 0.125])
+    tl.sort(key=lambda s: s["at"])
+    return {"gen": gen, "mode": "socket", "knobs": knobs, "timeline": tl, "end": t_f + 2.0 * k + 4.0, "class": "after_fault", "victim_retries": retries}
+
+
+def exec_after_fault(sc: dict) -> dict:
+    w = World(sc).run()
+    V = []
+    probes = {"c16.down_by_write_fault": 1}
+    h = sendq.History(w)
+    subs = sorted([s for s in h.subs if s["t_accept"] is not None], key=lambda s: s["seq_call"])
+    victim_id = next((c["id"] for c in w.calls if c["step"].get("victim")), None)
+    links = [l for l in w.net.links if l.t_accept is not None]
+    fired = any(e[2] == "fault.fired" for e in w.trace.events)
+    if victim_id is None or not fired or len(links) < 1:
+        return common.result(w, V, nontrivial=False, probes=probes)
+    t_down = next((e[1] for e in w.trace.events if e[2] in ("conn.force_close", "conn.lost")), None)
+    held = 1 if sc["victim_retries"] > 0 else 0
+    expect_tx = [victim_id] if held else []
+    for s in subs:
+        if s["id"] == victim_id or t_down is None or s["t_accept"] <= t_down:
+            continue
+        if len(links) >= 2 and s["t_accept"] >= links[1].t_accept:
+            continue
+        if held >= 10:
+            probes["c16.overflow"] = 1
+            if s["exc"] != "QueueOverflowError":
+                V.append(viol("C16.no_overflow_error", {"sub": s["id"], "got": s["exc"], "held": held, "t": s["t_accept"], "after_write_fault": True}))
+                break
+            continue
+        if s["exc"] is not None:
+            V.append(viol("C16.spurious_error", {"sub": s["id"], "exc": s["exc"], "held": held, "t": s["t_accept"], "after_write_fault": True}, exc=s["exc"]))
+            break
+        held += 1
+        expect_tx.append(s["id"])
+    if not V and len(links) >= 2:
+        got = [f["sub"] for f in h.frames if f["link"] >= links[1].id and f.get("sub") is not None]
+        if got != expect_tx:
+            missing = [i for i in expect_tx if i not in got]
+            V.append(viol("C16.held_lost" if missing else "C16.order", {"want": expect_tx, "got": got, "missing": missing, "after_write_fault": True}))
+    return common.result(w, V, nontrivial=True, probes=probes, evals=max(1, len(subs)))
+
+
 def generate(rng, index: int, tier: str) -> dict:
+    if rng.random() < 0.12:
+        return gen_after_fault(rng)
     gen = rng.choice([4, 5])
     knobs = {"latency": G.TICK, "first_packet_id": rng.choice([0, 250])}
     n = rng.choice([3, 8, 11, 12, 14, 20, 30, 40])
@@ -84,6 +153,8 @@ def generate(rng, index: int, tier: str) -> dict:
 
 
 def execute(sc: dict) -> dict:
+    if sc.get("class") == "after_fault":
+        return exec_after_fault(sc)
     w = World(sc).run()
     V = []
     probes = {}
